@@ -103,6 +103,7 @@ def _one(idx: int):
     fails = []
     for mode in ("canonical", "authoring", "executive", "developer"):
         views = {}
+        out_md = ""
         for fmt in ("octave", "json", "yaml", "markdown"):
             try:
                 res = asyncio.run(EjectTool().execute(content=c0, schema="META", mode=mode, format=fmt))
@@ -127,6 +128,7 @@ def _one(idx: int):
                     keys = set(re.findall(r"\*\*([^*]+)\*\*:", out))
                     heads = set(h.strip() for h in re.findall(r"^#{2,}\s+(.+)$", out, re.M))
                     views[fmt] = ("md", keys, heads)
+                    out_md = out
             except Exception as e:  # noqa: BLE001
                 if not feats:
                     fails.append(f"view (mode={mode}, format={fmt}) cannot be read back: {type(e).__name__}: {e} | {out[:200]!r}")
@@ -147,7 +149,7 @@ def _one(idx: int):
         if "markdown" in views and "json" in paths and not has_dups:
             _, keys, heads = views["markdown"]
             want = {p[-1] for p in paths["json"] if p[0] != "META" or True}
-            lack = {k for k in want if k not in keys and k not in heads}
+            lack = {k for k in want if k not in keys and k not in heads and not (k == "" and "****:" in out_md)}
             if lack:
                 fails.append(f"mode {mode}: markdown rendering lacks keys {sorted(lack)[:3]}")
     if fails:
